@@ -83,6 +83,19 @@ def run(ctx):
     ctx.cov["distinct_nontrivial"] = len(st.nontrivial)
     ctx.cov["rule"] = st.rule()
     ctx.cov["input_distribution"] = st.dist
+    # refuted statements: each witness is reproduced on the real code (findings F5/F6/F17/getReceipt come through ctx.finding)
+    for key, name in (("C19:F5-merkle-length-not-bound", "C19_merkle_length_not_bound_refuted"), ("C19:F6-chainid-slash", "C19_chain_id_slash_refuted"),
+                      ("C19:F17-v1-receipt-drops-feedelegation-gasused", "C19_receipt_v1_drops_feedelegation_refuted / C19_receipt_merkle_v1_misses_feedelegation_refuted"),
+                      ("C19:getreceipt-index-equal-length-panics", "C19_get_receipt_total_refuted")):
+        st.witnesses[name] = (any(f[0] == key for f in st.findings), "reported as KNOWN-FINDING " + key)
+    if st.getreceipt_repaired and not st.witnesses["C19_get_receipt_total_refuted"][0]:
+        st.witnesses["C19_get_receipt_total_refuted"] = (True, "REPAIRED in the tree under test (getReceipt(len) returns an error): the code now follows "
+                                                               "get_receipt_fixed / C19_get_receipt_fixed_total")
+    ctx.cov["refuted_statements_reproduced"] = {k: {"reproduced": bool(v[0]), "how": v[1]} for k, v in sorted(st.witnesses.items())}
+    lost = [k for k, v in st.witnesses.items() if not v[0]]
+    if lost and ctx.repo == "/repo":
+        st.corr_broken.append(("witness of a refuted statement no longer reproduces on the real code (the model must follow): %s" % lost,
+                               [st.witnesses[k][1] for k in lost]))
     if st.aliasing_notes:
         ctx.notes.append("aliasing observed (by design, informational): " + "; ".join(sorted(st.aliasing_notes)))
 
